@@ -19,7 +19,27 @@ def main():
         print("no check for %s: %s" % (pid, e))
         return 3
     if a.replay:
-        return mod.replay(a.replay)
+        # Case lists are determined by (seed, tier): a replay re-runs the check with the seed and tier recorded in the
+        # replay file and reports whether the recorded violation signature shows up again.
+        import json
+        rp = json.load(open(a.replay))
+        R_ = importlib.import_module("vf.run")
+        R_.SEED = int(rp.get("seed", R_.SEED))
+        tier = rp.get("tier", a.tier)
+        want = rp.get("signature")
+        chk = core.Check(pid, tier, getattr(mod, "LEVEL", "exploration"))
+        b = R_.Build()
+        try:
+            mod.run(chk, b, tier)
+        finally:
+            b.cleanup()
+        again = want in chk.violations
+        print("REPLAY property=%s signature=%r seed=%s tier=%s: %s" % (pid, want, R_.SEED, tier,
+              "violation reproduced" if again else "not reproduced (other violations: %d)" % len(chk.violations)))
+        if again:
+            print("VIOLATION property=%s replay=%s" % (pid, a.replay))
+            print("  detail: %s" % json.dumps(chk.violations[want], default=core._default)[:1500])
+        return 1 if again else 0
     level = getattr(mod, "LEVEL", "exploration")
     return core.main_wrapper(pid, lambda chk, b: mod.run(chk, b, a.tier), a.tier, level)
 
